@@ -64,7 +64,12 @@ Inject == /\ E.ev = "inject"
           /\ soup' = soup \cup {M(E.m)}
           /\ UNCHANGED <<pw, got, fin>>
 
-Deliver == /\ E.ev = "deliver"
+\* a forged vote (signed with the Byzantine key in another validator's name) may be handed to a node; it is
+\* not in the soup and gives the node no knowledge
+Forged == /\ (E.ev = "forge" \/ (E.ev = "deliver" /\ "forged" \in DOMAIN E))
+          /\ UNCHANGED <<pw, soup, got, fin>>
+
+Deliver == /\ E.ev = "deliver" /\ "forged" \notin DOMAIN E
            /\ M(E.m) \in soup
            /\ LET extra == IF "pcp" \in DOMAIN E THEN {M(x) : x \in Range(E.pcp)} ELSE {}
               IN got' = [got EXCEPT ![E.n] = @ \cup {M(E.m)} \cup extra]
@@ -80,7 +85,7 @@ Finalize == /\ E.ev = "finalize"
 
 TNext == /\ l <= Len(Trace)
          /\ l' = l + 1
-         /\ (Reset \/ Send \/ Inject \/ Deliver \/ Quiet \/ Finalize)
+         /\ (Reset \/ Send \/ Inject \/ Deliver \/ Forged \/ Quiet \/ Finalize)
 
 \* ---- the property, on the real drivers' records --------------------------------
 Agreement == \A i, j \in Corr : \A a \in Range(fin[i]), b \in Range(fin[j]) : a.h = b.h => a.v = b.v
